@@ -3,6 +3,7 @@ package scen
 import (
 	"fmt"
 	"strings"
+	"time"
 
 	"simh/codec"
 	"simh/sim"
@@ -19,8 +20,12 @@ func init() {
 func runC09(c *Ctx) {
 	n := 2 + c.T.Choose(5)
 	tw := PlanTunnels(c, TunOpts{N: n, Transports: []string{"ws", "legacy"}})
-	if c.T.Bool(1, 4) {
+	idle := c.T.Weighted(2, 1, 1)
+	switch idle {
+	case 1:
 		tw.Cfg.IdleTimeout = -5 // the tunnel-auth response normalises negative timeouts
+	case 2:
+		tw.Cfg.IdleTimeout = 1 + c.T.Choose(3) // minutes; some sessions below pause for seconds
 	}
 	if !BootTun(c, tw, false) {
 		return
@@ -28,6 +33,10 @@ func runC09(c *Ctx) {
 	var ds []string
 	for _, p := range tw.Plans {
 		buildStreamPlan(c, tw, p, 1+c.T.Choose(4), 2+c.T.Choose(8), 2000, 9000, false)
+		if idle == 2 && len(p.Pkts) > 5 && c.T.Bool(1, 2) {
+			// a few seconds pass in the middle of the session (timers of the gateway get their turn)
+			p.QuietBefore = map[int]time.Duration{4 + c.T.Choose(len(p.Pkts)-4): time.Duration(2+c.T.Choose(8)) * time.Second}
+		}
 		end := c.T.Choose(7)
 		switch end {
 		case 6:
